@@ -81,6 +81,11 @@ def _run(files, order, scratch, eapi="8"):
     return read_updates(d, get_eapi(eapi))
 
 
+# (earlier, later) quarter files: same year with and without 4Q, across a year boundary, several years apart
+PAIRS = [("1Q-2020", "3Q-2020"), ("3Q-2020", "4Q-2020"), ("1Q-2020", "4Q-2020"), ("4Q-2019", "1Q-2020"), ("2Q-2020", "1Q-2021"), ("4Q-2018", "4Q-2020"), ("3Q-2019", "2Q-2020")]
+TRIPLES = [("1Q-2021", "2Q-2021", "4Q-2021"), ("3Q-2020", "4Q-2020", "1Q-2021"), ("4Q-2019", "2Q-2020", "4Q-2020"), ("2Q-2019", "1Q-2020", "3Q-2020")]
+
+
 def enum_updates(seed):
     import logging
     import shutil
@@ -97,22 +102,28 @@ def enum_updates(seed):
     def norm(d):
         return {k: [(c[0], str(c[1]), str(c[2])) for c in v] for k, v in d.items()}
 
-    def check(files, order, label):
+    def when(name):
+        q, y = name.split("Q-")
+        return int(y), int(q)
+
+    def check(files, order, label, eapi="8"):
+        # EAPI <= 7: quarter-named files, applied by date (year, then quarter); EAPI 8: any name, applied in name order
         nonlocal cases
         cases += 1
-        applied = [l for name, lines in sorted(files) for l in lines]
+        applied = [l for name, lines in sorted(files, key=(lambda f: when(f[0])) if eapi == "7" else None) for l in lines]
         want, bad = ref_commands(applied)
         if bad:
             return
         try:
-            got = _run(files, order, scratch)
+            got = _run(files, order, scratch, eapi=eapi)
         except Exception as e:
             if len(fails) < 5:
-                fails.append({"model": {"files": files, "created_in_order": order}, "detail": f"read_updates raised {type(e).__name__}: {e} on {files}"})
+                fails.append({"model": {"files": files, "created_in_order": order, "eapi": eapi}, "detail": f"read_updates raised {type(e).__name__}: {e} on {files}"})
             return
         if norm(got) != norm(want) and len(fails) < 5:
             diff = {k: (norm(got).get(k), norm(want).get(k)) for k in set(got) | set(want) if norm(got).get(k) != norm(want).get(k)}
-            fails.append({"model": {"files": files, "created_in_order": order}, "detail": f"update files {files} ({label}): per name (reported, sequential reference): {diff}"})
+            fails.append({"model": {"files": files, "created_in_order": order, "eapi": eapi},
+                          "detail": f"update files {files} under EAPI {eapi} ({label}): per name (reported, reference applying the files {'by date' if eapi == '7' else 'in name order'}): {diff}"})
     try:
         for n in range(1, 5):
             pool = CMDS if n <= 3 else moves + slots[:2]
@@ -125,6 +136,10 @@ def enum_updates(seed):
                     fs = [("1Q-2020", list(seq[:k])), ("3Q-2020", list(seq[k:]))]
                     check(fs, [0, 1], "two files")
                     check(fs, [1, 0], "two files, created in reverse order")
+                    # the same split under every kind of quarter pair (same year incl. 4Q, across a year, name order != date order)
+                    first, second = PAIRS[hash(seq) // 5 % len(PAIRS)]
+                    fs = [(first, list(seq[:k])), (second, list(seq[k:]))]
+                    check(fs, [1, 0], "two quarter files", eapi="7")
         rnd = random.Random(seed)
         names4 = NAMES + ("cat/d",)
         pool = [f"move {a} {b}" for a in names4 for b in names4 if a != b] + [f"slotmove {a} {x} {y}" for a in names4 for x, y in (("0", "1"), ("1", "2"))] + junk
@@ -133,6 +148,9 @@ def enum_updates(seed):
             cut = sorted(rnd.sample(range(len(seq) + 1), 2))
             fs = [("1Q-2021", seq[:cut[0]]), ("2Q-2021", seq[cut[0]:cut[1]]), ("4Q-2021", seq[cut[1]:])]
             check(fs, rnd.sample(range(3), 3), "three files, random creation order")
+            three = rnd.choice(TRIPLES)
+            fs = [(three[0], seq[:cut[0]]), (three[1], seq[cut[0]:cut[1]]), (three[2], seq[cut[1]:])]
+            check(fs, rnd.sample(range(3), 3), "three quarter files, random creation order", eapi="7")
         # quarter files of different years: chronological order is what the statement's "sequence of files" means
         fs = [("4Q-2019", ["move cat/a cat/b"]), ("1Q-2020", ["move cat/b cat/c"])]
         cases += 1
@@ -144,7 +162,7 @@ def enum_updates(seed):
     finally:
         shutil.rmtree(scratch, ignore_errors=True)
     return {"name": "C42.read_updates.bounded_enumeration", "bound": f"every sequence of <= 3 lines over {len(CMDS)} commands and {'every' if thorough else 'a 1/7 sample of the'} 4-line sequences over {len(moves) + 2} commands (3 names), "
-            "as one file and split over two files created in both orders; seeded random sequences of 5..9 lines over 4 names in 3 files; one two-year case", "cases": cases, "failures": fails}
+            "as one file and split over two files created in both orders (EAPI 8 naming) and over 7 kinds of quarter-file pairs applied by date (EAPI 7: same year with and without 4Q, across years); seeded random sequences of 5..9 lines over 4 names in 3 files under both conventions", "cases": cases, "failures": fails}
 
 
 def tasks():
